@@ -44,7 +44,7 @@ def bad_operator(inputs, value):
 
 
 def run(ctx: Ctx):
-  for r in (r1, r2, r3, r4, r8):
+  for r in (r1, r2, r3, r4, r8, r9):
     ctx.guard(r)
   from mlmverif.props import c18, c19
   ctx.include('R-C08-5', '"leaves the caller\'s input objects untouched": the'
@@ -449,11 +449,63 @@ def r8(ctx: Ctx):
   ctx.floor(rule, 4, n)
 
 
+def r9(ctx: Ctx):
+  rule = 'R-C08-9'
+  ctx.rule(rule, '"invalid key combinations are rejected when the pipeline is'
+           ' built": in the constructors that normalise key specifications'
+           ' (TreeFn.__post_init__ and overrides), a local tested by a raising'
+           ' guard is not (re)assigned on any path AFTER that guard — a check'
+           ' placed before the normalisation that fills the variable tests a'
+           ' stale value and lets the invalid combination through')
+  n = 0
+  mi = ctx.repo.module(TF)
+  for ci in mi.classes.values():
+    fi = ci.methods.get('__post_init__')
+    if fi is None:
+      continue
+    g = cfgm.cfg_of(fi.node)
+    for c in g.nodes:
+      if c.kind != 'cond':
+        continue
+      raises = [s_ for s_, lab in c.succ if lab == 'true' and s_.kind == 'stmt' and isinstance(s_.ast, ast.Raise)]
+      if not raises:
+        continue
+      tested = {y.id for y in ast.walk(c.ast) if isinstance(y, ast.Name)} - {'self'}
+      locals_ = {t.id for x in walk_no_nested(fi.node) if isinstance(x, ast.Assign)
+                 for tt in x.targets for t in ast.walk(tt) if isinstance(t, ast.Name)}
+      tested &= locals_
+      if not tested:
+        continue
+      n += 1
+      after = g.reachable([s_ for s_, lab in c.succ if lab == 'false'], edge_ok=cfgm.only_normal, include_src=True)
+      stale = None
+      for nd in after:
+        if nd.kind == 'stmt' and isinstance(nd.ast, ast.Assign):
+          tg = {t.id for tt in nd.ast.targets for t in ast.walk(tt) if isinstance(t, ast.Name)}
+          if tg & tested:
+            stale = (nd, sorted(tg & tested))
+      if stale:
+        nd, vs = stale
+        ctx.fail(rule, fi, f'{ci.name}.__post_init__: `{unparse(c.ast)[:50]}` validates the final value',
+                 f'the guard `if {unparse(c.ast)[:60]}: raise` tests `{vs[0]}` before'
+                 f' `{nd.text()[:60]}` assigns it: the invalid specification is only'
+                 ' produced by that later normalisation, passes the build-time'
+                 ' check and fails (or is silently skipped) at run time',
+                 node=c.ast)
+      else:
+        ctx.ok(rule, fi, f'{ci.name}.__post_init__: `{unparse(c.ast)[:50]}` tests the final value', c.ast)
+  ctx.floor(rule, 1, n)
+
+
 from mlmverif.selfcheck import B, OK  # noqa: E402
 
 _F = 'chainables/tree_fns.py'
 _T = 'chainables/transform.py'
 VARIANTS = [
+    B('select-kwargs-check-before-unpacking', _F,
+      '    input_keys, output_keys = self.input_keys, self.output_keys\n',
+      '    input_keys, output_keys = self.input_keys, self.output_keys\n    if self.fn is None:\n      if input_argkeys:\n        raise ValueError(f\'Select Op cannot have kwargs, got {input_keys=}\')\n',
+      'R-C08-9'),
     B('output-keys-from-dict-values', _T,
       '      non_dict_keys, dict_keys = mit.partition(_is_dict, fn.output_keys)\n      # Aggregate and Assign/Apply Ops are separated into different transforms.\n      # The base TreeFn means this is an Apply Op.\n      if type(fn) is tree_fns.TreeFn:  # pylint: disable=unidiomatic-typecheck\n        result = set()\n      result.update(itertools.chain(non_dict_keys, *dict_keys))',
       '      if type(fn) is tree_fns.TreeFn:  # pylint: disable=unidiomatic-typecheck\n        result = set()\n      for key in fn.output_keys:\n        result.update(key.values() if _is_dict(key) else (key,))',
